@@ -8,7 +8,7 @@
    sequences (with arbitrary requests on other keys, outages and clock advances in between). *)
 From Coq Require Import List ZArith String Bool.
 From GZ Require Import Lib.RedisStore C03.Model C03.GenProofs C03.ProofsBucket C03.ProofsPeriod
-                       C03.ProofsPeriodSpec C03.ProofsToken C03.Proofs C03.ProofsMore.
+                       C03.ProofsPeriodSpec C03.ProofsToken C03.Proofs C03.ProofsMore C03.Monitor C03.ProofsMonitor.
 From GZgen Require Lua_period Lua_token C03Consts.
 Import ListNotations.
 Open Scope string_scope.
@@ -232,6 +232,25 @@ Print Assumptions token_cancelled_context.
 Theorem token_keys_distinct : forall key, tokens_key key <> ts_key key.
 Proof. exact token_keys_distinct_all. Qed.
 Print Assumptions token_keys_distinct.
+
+(* NO STUCK RESCUE MODE, ALL SCHEDULES (the monitor's two-step exit).  Monitor.v is the flag logic
+   of tokenlimit.go as an LTS with the real steps: request threads (read redisAlive; send; on
+   failure startMonitor = lock, look at monitorStarted, set it, store redisAlive = 0, go
+   waitForRedis, unlock), the monitor thread (ping; store redisAlive = 1; [window]; lock; clear
+   monitorStarted; unlock) and the environment (store down / up).  For n request threads and EVERY
+   schedule, in the state reached: (a) redisAlive = 0 only while a recovery is pending (a monitor
+   that has not yet reported success, or a request about to start one); (b) with no monitor and
+   all requests between calls redisAlive = 1; (c) once the store answers and the requests are
+   between calls, one successful tick of the monitor (4 of its steps) brings the instance back.
+   The variant with a lock-free fast path is refuted: Pinned.fast_path_lost_wakeup_refuted. *)
+Theorem monitor_never_stuck : forall n sched,
+  let s := mrun false (minit n) sched in
+  (m_alive s = false -> (1 <= recovery_pending s)%nat) /\
+  (quiescent s = true -> m_alive s = true) /\
+  (m_up s = true -> forallb is_idle (m_reqs s) = true ->
+   let s' := mrun false s [AMon; AMon; AMon; AMon] in m_alive s' = true /\ m_mon s' = MNone).
+Proof. exact never_stuck_all. Qed.
+Print Assumptions monitor_never_stuck.
 
 (* ---- non-vacuity ---- *)
 Definition ex_cfg := mkCfg 5 2 (BStr "{tk}.tokens") (BStr "{tk}.ts").   (* 2*burst < rate *)
